@@ -55,6 +55,7 @@ type tcase struct {
 	Rounds  int      `json:"rounds"`
 	E2EV    *e2evCase `json:"e2ev"`
 	E2EG    *e2egCase `json:"e2eg"`
+	E2EC    *e2egCase `json:"e2ec"`
 }
 
 // state as [subj, auth, resource]; nil pointer -> nil slice (JSON null)
@@ -119,6 +120,7 @@ type result struct {
 	E2E   *e2eOut   `json:"e2e,omitempty"`
 	Race  *e2eRaceOut `json:"e2erace,omitempty"`
 	E2EG  *e2egOut    `json:"e2eg,omitempty"`
+	E2EC  *e2egOut    `json:"e2ec,omitempty"`
 	Panic *string   `json:"panic"`
 }
 
@@ -351,6 +353,8 @@ func runCase(c tcase) (res result) {
 		res.E2E = runE2EV(c.E2EV)
 	case "e2eg":
 		res.E2EG = runE2EG(c.E2EG)
+	case "e2ec":
+		res.E2EC = runE2EG(c.E2EC)
 	case "e2erace":
 		res.Race = runE2ERace(c.Rounds)
 	case "ctlrace":
